@@ -215,3 +215,183 @@ pub fn trace(args: &Args) {
     }
     cx.out.finish();
 }
+
+// ---------------------------------------------------------------------------------------------
+// Degenerate / edge vectors (fixed family, no randomness): small-order and non-canonical points,
+// boundary scalars.  For every vector the harness logs the *facts* the RFC 8032 5.1.7 procedure
+// depends on (computed with curve25519-dalek) and the answers of pallas-crypto (twice) and of the
+// reference (ed25519-dalek verify and verify_strict); TLC classifies and judges (Ed25519Api.tla).
+use curve25519_dalek::constants::{ED25519_BASEPOINT_POINT as B, EIGHT_TORSION};
+use curve25519_dalek::edwards::{CompressedEdwardsY, EdwardsPoint};
+use curve25519_dalek::scalar::Scalar as Sc;
+use curve25519_dalek::traits::IsIdentity;
+
+const L_BYTES: [u8; 32] = [
+    0xed, 0xd3, 0xf5, 0x5c, 0x1a, 0x63, 0x12, 0x58, 0xd6, 0x9c, 0xf7, 0xa2, 0xde, 0xf9, 0xde, 0x14,
+    0, 0, 0, 0, 0, 0, 0, 0, 0, 0, 0, 0, 0, 0, 0, 0x10,
+];
+
+fn hram(r: &[u8; 32], a: &[u8; 32], m: &[u8]) -> Sc {
+    let mut h = Sha512::new();
+    h.update(r);
+    h.update(a);
+    h.update(m);
+    Sc::from_bytes_mod_order_wide(&h.finalize().into())
+}
+fn add_le(a: &[u8; 32], b: &[u8; 32]) -> [u8; 32] {
+    let mut out = [0u8; 32];
+    let mut c = 0u16;
+    for i in 0..32 {
+        let v = a[i] as u16 + b[i] as u16 + c;
+        out[i] = v as u8;
+        c = v >> 8;
+    }
+    out
+}
+
+struct Edge<'a> {
+    out: &'a mut Ndjson,
+    n: usize,
+}
+impl Edge<'_> {
+    fn vector(&mut self, name: &str, a: [u8; 32], r: [u8; 32], s: [u8; 32], m: &[u8]) {
+        let ap = CompressedEdwardsY(a).decompress();
+        let rp = CompressedEdwardsY(r).decompress();
+        let k = hram(&r, &a, m);
+        let ss = Sc::from_bytes_mod_order(s);
+        let (eq1, eq8) = match (ap, rp) {
+            (Some(ap), Some(rp)) => {
+                let d: EdwardsPoint = ss * B - rp - k * ap;
+                (d.is_identity(), d.mul_by_cofactor().is_identity())
+            }
+            _ => (false, false),
+        };
+        let canon = |p: &Option<EdwardsPoint>, enc: &[u8; 32]| p.map(|p| p.compress().to_bytes() == *enc).unwrap_or(false);
+        let small = |p: &Option<EdwardsPoint>| p.map(|p| p.is_small_order()).unwrap_or(false);
+        let mut sig = [0u8; 64];
+        sig[..32].copy_from_slice(&r);
+        sig[32..].copy_from_slice(&s);
+        let ok = PublicKey::from(a).verify(m, &Signature::from(sig));
+        let ok2 = PublicKey::from(a).verify(m, &Signature::from(sig));
+        let (rf, rfs) = match ed25519_dalek::VerifyingKey::from_bytes(&a) {
+            Ok(vk) => {
+                let sg = ed25519_dalek::Signature::from_bytes(&sig);
+                (vk.verify(m, &sg).is_ok(), vk.verify_strict(m, &sg).is_ok())
+            }
+            Err(_) => (false, false),
+        };
+        self.n += 1;
+        self.out.ev(json!({"ev": "edge_verify", "name": name, "a": a.to_vec(), "r": r.to_vec(), "s": s.to_vec(), "msg": hex(m),
+            "a_dec": ap.is_some(), "r_dec": rp.is_some(), "a_canon": canon(&ap, &a), "r_canon": canon(&rp, &r),
+            "a_small": small(&ap), "r_small": small(&rp), "eq1": eq1, "eq8": eq8,
+            "ok": ok, "ok2": ok2, "ref": rf, "ref_strict": rfs}));
+    }
+}
+
+pub fn edge(args: &Args) {
+    let mut out = Ndjson::create(args.get("out"));
+    out.ev(json!({"ev": "reset"}));
+    let mut e = Edge { out: &mut out, n: 0 };
+    let msgs: Vec<Vec<u8>> = vec![vec![], b"abc".to_vec(), vec![0x5a; 64]];
+    let zero = [0u8; 32];
+    let mut one = [0u8; 32];
+    one[0] = 1;
+    let mut eight = [0u8; 32];
+    eight[0] = 8;
+    let mut lm1 = L_BYTES;
+    lm1[0] -= 1;
+    let neutral = EIGHT_TORSION[0].compress().to_bytes();
+    let tors: Vec<[u8; 32]> = EIGHT_TORSION.iter().map(|p| p.compress().to_bytes()).collect();
+    let enc = |p: EdwardsPoint| p.compress().to_bytes();
+    // an honest key (fixed seed) and its raw scalar / prefix for hand-made signatures
+    let seed = [0x42u8; 32];
+    let hk = ed25519_dalek::SigningKey::from_bytes(&seed);
+    let a_hon = hk.verifying_key().to_bytes();
+    let ext = ext_of_seed(&seed);
+    let a_sc = Sc::from_bytes_mod_order(ext[..32].try_into().unwrap());
+    for m in &msgs {
+        // 1. neutral public key: valid for every message with (R, S) = ([s]B, s)
+        e.vector("neutral-A/R=neutral/S=0", neutral, neutral, zero, m);
+        e.vector("neutral-A/R=B/S=1", neutral, enc(B), one, m);
+        e.vector("neutral-A/R=8B/S=8", neutral, enc(Sc::from(8u8) * B), eight, m);
+        e.vector("neutral-A/R=-B/S=L-1", neutral, enc(-B), lm1, m);
+        e.vector("neutral-A/R=neutral/S=L", neutral, neutral, L_BYTES, m);                 // non-canonical S
+        e.vector("neutral-A/R=B/S=L+1", neutral, enc(B), add_le(&L_BYTES, &one), m);
+        let mut hi = one;
+        hi[31] |= 0x80;
+        e.vector("neutral-A/R=B/S=1+2^255", neutral, enc(B), hi, m);
+        let mut hi2 = zero;
+        hi2[31] = 0xf0;
+        e.vector("neutral-A/R=neutral/S=0xf0<<248", neutral, neutral, hi2, m);
+        e.vector("neutral-A/R=B/S=0 (equation false)", neutral, enc(B), zero, m);
+        // 2. every pair of small-order A and R with S = 0 (verdict depends on k mod order)
+        for (i, a) in tors.iter().enumerate() {
+            for (j, r) in tors.iter().enumerate() {
+                if i != 0 || j != 0 {
+                    e.vector(&format!("torsion-A{i}/torsion-R{j}/S=0"), *a, *r, zero, m);
+                }
+            }
+        }
+        // 3. honest signature and its perturbations
+        let sig = hk.sign(m).to_bytes();
+        let r_hon: [u8; 32] = sig[..32].try_into().unwrap();
+        let s_hon: [u8; 32] = sig[32..].try_into().unwrap();
+        e.vector("honest", a_hon, r_hon, s_hon, m);
+        e.vector("honest/S+L", a_hon, r_hon, add_le(&s_hon, &L_BYTES), m);
+        let mut s_hi = s_hon;
+        s_hi[31] |= 0x80;
+        e.vector("honest/S+2^255", a_hon, r_hon, s_hi, m);
+        e.vector("honest/S=0", a_hon, r_hon, zero, m);
+        e.vector("honest/S+1", a_hon, r_hon, add_le(&s_hon, &one), m);
+        let rp = CompressedEdwardsY(r_hon).decompress().unwrap();
+        for t in [1usize, 2, 4] {
+            e.vector(&format!("honest/R+T{t} (same S)"), a_hon, enc(rp + EIGHT_TORSION[t]), s_hon, m);
+        }
+        // 4. mixed-order public key A' = A + T, signed by hand with the honest scalar
+        for t in [1usize, 4] {
+            let a_mixed = enc(hk.verifying_key().to_edwards() + EIGHT_TORSION[t]);
+            let rr = Sc::from_bytes_mod_order([0x17u8; 32]);
+            let r_enc = enc(rr * B);
+            let k = hram(&r_enc, &a_mixed, m);
+            e.vector(&format!("mixed-order-A+T{t}/hand-signed"), a_mixed, r_enc, (rr + k * a_sc).to_bytes(), m);
+        }
+    }
+    // 5. the all-zero public key (y = 0: a point of order 4) with R = neutral, S = 0 on messages chosen so that
+    //    the cofactorless equation holds (k = 0 mod 4) resp. fails
+    let (mut hit, mut miss) = (0, 0);
+    for c in 0u32..200 {
+        let m = c.to_be_bytes();
+        let k4 = hram(&neutral, &zero, &m).to_bytes()[0] & 3;
+        if k4 == 0 && hit < 2 {
+            hit += 1;
+            e.vector("all-zero-A/R=neutral/S=0/k=0mod4", zero, neutral, zero, &m);
+        } else if k4 != 0 && miss < 2 {
+            miss += 1;
+            e.vector("all-zero-A/R=neutral/S=0/k!=0mod4", zero, neutral, zero, &m);
+        }
+    }
+    // 6. non-canonical encodings: y >= p and "negative zero" (x = 0 with the sign bit set)
+    let mut p_plus_1 = [0xffu8; 32];                      // p + 1 = 2^255 - 18  ==  y = 1 (neutral)
+    p_plus_1[0] = 0xee;
+    p_plus_1[31] = 0x7f;
+    let mut p_enc = [0xffu8; 32];                         // p  ==  y = 0 (order 4)
+    p_enc[0] = 0xed;
+    p_enc[31] = 0x7f;
+    let mut neg_zero = neutral;                           // y = 1, sign bit set
+    neg_zero[31] |= 0x80;
+    let mut minus1_neg = tors[4];                         // y = -1 (order 2), sign bit set
+    minus1_neg[31] |= 0x80;
+    for m in &msgs {
+        e.vector("noncanon-A=p+1/R=neutral/S=0", p_plus_1, neutral, zero, m);
+        e.vector("neutral-A/noncanon-R=p+1/S=0", neutral, p_plus_1, zero, m);
+        e.vector("noncanon-A=negzero/R=neutral/S=0", neg_zero, neutral, zero, m);
+        e.vector("neutral-A/noncanon-R=negzero/S=0", neutral, neg_zero, zero, m);
+        e.vector("noncanon-A=p/R=neutral/S=0", p_enc, neutral, zero, m);
+        e.vector("noncanon-A=-1negzero/R=neutral/S=0", minus1_neg, neutral, zero, m);
+        let mut off = [0u8; 32];
+        off[0] = 2;                                       // y = 2 is not on the curve
+        e.vector("A-not-on-curve(y=2)/R=neutral/S=0", off, neutral, zero, m);
+        e.vector("honest-A/R-not-on-curve(y=2)/S=0", a_hon, off, zero, m);
+    }
+    out.finish();
+}
